@@ -74,7 +74,7 @@ func c13Child(run *evid.Run, batch, nb int, j *Journal) {
 		}
 	}
 	// bounded merges: race and deadlock only
-	for i := batch; i < nStress/8 && !evid.IsSaturated(); i += nb {
+	for i := batch; i < nStress/3 && !evid.IsSaturated(); i += nb {
 		c13Bounded(run, i, j)
 	}
 }
@@ -295,8 +295,8 @@ func c13Bounded(run *evid.Run, i int, j *Journal) {
 	activePlan.Store(p)
 	done := runWorkers(4, func(g int) {
 		r := rand.New(rand.NewSource(int64(i*10 + g)))
-		for n := 0; n < 8; n++ {
-			switch (g + n) % 4 {
+		for n := 0; n < 12; n++ {
+			switch (g + n*(1+i%2)) % 4 { // even cases: every goroutine cycles through all kinds; odd cases: one kind per goroutine
 			case 0:
 				_, _ = s.L.Join(s.srcs[r.Intn(len(s.srcs))], r.Intn(6))
 			case 1:
